@@ -118,6 +118,17 @@ class SimLock(object):
     def acquire(self, blocking=True, timeout=-1):
         s = ACTIVE[0]
         if s is None or s.current is None or threading.current_thread().name != 'sim-%d' % s.current:
+            # single caller outside a scheduled batch (the harness runs such calls on one thread): a lock that
+            # is taken and cannot be had at once will never be released by anybody
+            if self._real.acquire(False):
+                return True
+            if not blocking:
+                return False
+            if timeout is not None and timeout > 0:
+                return False
+            if s is None and threading.current_thread() is threading.main_thread():
+                raise RuntimeError('dead-lock in the system under test: the only caller waits for a lock that is '
+                                   'already held (left locked by an earlier call?)')
             return self._real.acquire(blocking, timeout)
         while not self._real.acquire(False):
             if not blocking:
